@@ -785,6 +785,12 @@ impl<F: FileSystem + Sync> Server<F> {
                     flags2: (enabled_flags >> 32) as u32,
                     ..Default::default()
                 };
+                // The client only looks at `flags2` when the extended-flags marker is
+                // set, so enabled extended bits must always travel with it.
+                #[cfg(target_os = "linux")]
+                if out.flags2 != 0 {
+                    out.flags |= FsOptions::INIT_EXT.bits() as u32;
+                }
                 if enabled.contains(FsOptions::BIG_WRITES) {
                     out.max_write = MAX_REQ_PAGES as u32 * pagesize() as u32;
                 }
